@@ -466,6 +466,19 @@ func (c *Ctx) originLeaves(v ssa.Value, scope map[*ssa.Function]bool) []ssa.Valu
 				if n > 0 {
 					return
 				}
+				// a struct handed over by value (a private "phase"/"row" struct built by the caller): the field of the
+				// parameter's copy is what the caller stored into that field of its literal
+				for _, obj := range c.originLeaves(fa.X, scope) {
+					if al, ok := obj.(*ssa.Alloc); ok {
+						for _, src := range c.structFieldSources(&ssa.UnOp{Op: token.MUL, X: al}, fa.Field, 0) {
+							walk(src, depth+1)
+							n++
+						}
+					}
+				}
+				if n > 0 {
+					return
+				}
 			}
 			if fv, ok := x.X.(*ssa.FreeVar); ok && x.Op == token.MUL {
 				fn := fv.Parent()
@@ -490,6 +503,13 @@ func (c *Ctx) originLeaves(v ssa.Value, scope map[*ssa.Function]bool) []ssa.Valu
 				if n > 0 {
 					return
 				}
+			}
+		case *ssa.Field:
+			if srcs := c.structFieldSources(x.X, x.Field, 0); len(srcs) > 0 {
+				for _, src := range srcs {
+					walk(src, depth+1)
+				}
+				return
 			}
 		case *ssa.Parameter:
 			f := x.Parent()
@@ -535,8 +555,8 @@ func (c *Ctx) isExecHeight(v ssa.Value) bool {
 			continue
 		}
 		bo, ok := l.(*ssa.BinOp)
-		if !ok || bo.Op != token.ADD || bo.Parent() != c.Sync {
-			return false
+		if !ok || bo.Op != token.ADD || (bo.Parent() != c.Sync && !c.inFamily(bo.Parent(), c.Sync)) {
+			return false // computed in the sync root or in a stage split off from it
 		}
 		k, ok := bo.Y.(*ssa.Const)
 		if !ok || k.Value == nil || k.Int64() != 1 || typePath(bo.X) != "pegnet.BlockSync.Synced" {
@@ -634,4 +654,60 @@ func ordEdges(b *ssa.BasicBlock) (x, y ssa.Value, lt, ge *ssa.BasicBlock) {
 		return bo.Y, bo.X, fb, tb
 	}
 	return nil, nil, nil, nil
+}
+
+// structFieldSources: the values stored into field #field of the struct value v - v being a load of a local literal, a
+// struct parameter (then: what every caller passes), a merge of such, or a copy.
+func (c *Ctx) structFieldSources(v ssa.Value, field, depth int) []ssa.Value {
+	if depth > 5 || v == nil {
+		return nil
+	}
+	var out []ssa.Value
+	switch x := v.(type) {
+	case *ssa.UnOp:
+		al, ok := x.X.(*ssa.Alloc)
+		if !ok || x.Op != token.MUL || al.Referrers() == nil {
+			return nil
+		}
+		for _, rf := range *al.Referrers() {
+			switch y := rf.(type) {
+			case *ssa.FieldAddr:
+				if y.Field != field || y.Referrers() == nil {
+					continue
+				}
+				for _, r2 := range *y.Referrers() {
+					if st, ok := r2.(*ssa.Store); ok && st.Addr == ssa.Value(y) {
+						out = append(out, st.Val)
+					}
+				}
+			case *ssa.Store:
+				if y.Addr == ssa.Value(al) {
+					out = append(out, c.structFieldSources(y.Val, field, depth+1)...)
+				}
+			}
+		}
+	case *ssa.Phi:
+		for _, e := range x.Edges {
+			out = append(out, c.structFieldSources(e, field, depth+1)...)
+		}
+	case *ssa.Parameter:
+		f := x.Parent()
+		idx := -1
+		for i, p := range f.Params {
+			if p == x {
+				idx = i
+			}
+		}
+		for _, e := range c.callSitesOf(f) {
+			ci, ok := e.Site.(ssa.CallInstruction)
+			if !ok {
+				continue
+			}
+			args := ci.Common().Args
+			if idx >= 0 && idx < len(args) {
+				out = append(out, c.structFieldSources(args[idx], field, depth+1)...)
+			}
+		}
+	}
+	return out
 }
